@@ -550,6 +550,9 @@ class SamplingMethod(DirectMethod):
         if phase==0: return
         opti = stage.master._method.opti
         if phase==1:
+            # This object is shared with earlier transcriptions of the same stage:
+            # start from a clean slate instead of appending to their lists
+            self.clean()
 
             DM.set_precision(14)
 
